@@ -136,7 +136,11 @@ def render_image(image):
         else:
             s = surfs[idx]
             slots[int(sl)] = (status, s.volumes[0].title, s.render())
-    return dd.mmb_image(slots)
+    data = dd.mmb_image(slots)
+    if image.get('boot'):
+        # the four boot-time slot numbers that open the MMB table (any values; low bytes of the slot numbers)
+        data = bytes(image['boot'][:4]) + data[4:]
+    return data
 
 
 def image_drives(image, policy='physical', first_free=0):
